@@ -15,6 +15,7 @@ class Entry:
         self.jobs = []          # (jobid, buf, stream, verbose, ws, nl, bytes)
         self.dump = None
         self.diag = None
+        self.diag_threw = None
         self.traces = []
         self.construct_threw = None
         self.crashed = None
@@ -159,6 +160,8 @@ def run_harness(entries, workname, env=None):
                 by_gid[rec['dump']['g']].dump = rec['dump']
             elif 'diag' in rec:
                 by_gid[rec['g']].diag = rec['diag']
+            elif 'diag_threw' in rec:
+                by_gid[rec['g']].diag_threw = rec['diag_threw']
             elif 'construct_threw' in rec:
                 by_gid[rec['g']].construct_threw = rec['construct_threw']
             else:
@@ -193,6 +196,8 @@ def run_harness(entries, workname, env=None):
                         by_gid[rec['dump']['g']].dump = rec['dump']
                     elif 'diag' in rec:
                         by_gid[rec['g']].diag = rec['diag']
+                    elif 'diag_threw' in rec:
+                        by_gid[rec['g']].diag_threw = rec['diag_threw']
                     elif 'construct_threw' in rec:
                         by_gid[rec['g']].construct_threw = rec['construct_threw']
                     else:
